@@ -183,6 +183,9 @@ pub fn toks(t: &impl ToTokens) -> String {
 /// proc_macro2 prints them, then remove spaces around punctuation so that
 /// `* const crate :: m :: T` == `*const crate::m::T`.
 pub fn squeeze(s: &str) -> String {
+    // a predefined type written with its full path (pyxis does that inside modules that define
+    // an item of the same name) is the same type
+    let s = s.replace(":: core :: primitive :: ", "").replace("::core::primitive::", "");
     let mut out = String::new();
     let chars: Vec<char> = s.chars().collect();
     let is_word = |c: char| c.is_alphanumeric() || c == '_' || c == '"' || c == '\'' || c == '#';
